@@ -1,0 +1,17 @@
+//go:build verif
+
+package crypki
+
+import "google.golang.org/grpc"
+
+// VerifWithDialOptions returns a copy of the signer whose gRPC dial options are
+// followed by opts. The simulation harness (build tag "verif") uses it to route
+// the endpoints onto a simulated network with grpc.WithContextDialer; the TLS
+// credentials, interceptors and retry policy stay the ones NewSigner built.
+func (s *Signer) VerifWithDialOptions(opts ...grpc.DialOption) *Signer {
+	c := &Signer{
+		endpoints:   append([]string(nil), s.endpoints...),
+		dialOptions: append(append([]grpc.DialOption(nil), s.dialOptions...), opts...),
+	}
+	return c
+}
